@@ -401,7 +401,7 @@ def _eval_many_rows(mon, rows):
     reqs, spans = [], []
     for r in rows:
         q = _mon_reqs(r)
-        q = [x if x not in ('true', 'false') else 'same . .' if x == 'true' else 'same . 0:-:0:0:-:N:_' for x in q]
+        q = [x if x not in ('true', 'false') else 'same . .' if x == 'true' else 'same . 0:-:0:0:-:N:_:-' for x in q]
         spans.append((len(reqs), len(reqs) + len(q)))
         reqs.extend(q)
     ans = lib.run_driver_parallel(mon, reqs)
